@@ -1,6 +1,6 @@
 (* C01 - VPSC: every constraint is satisfied on return or is reported unsatisfiable.
    Only statements closed by `exact`; proofs live in Vpsc/Feas.v (verified oracles) and Vpsc/VpscInv.v (model). *)
-From Adapt Require Import Num.Qaux Vpsc.VpscSpec Vpsc.Feas Vpsc.VpscModel.
+From Adapt Require Import Num.Qaux Vpsc.VpscSpec Vpsc.Feas Vpsc.VpscModel Vpsc.VpscInv.
 Local Open Scope Q_scope.
 
 Theorem C01_sat_or_flagged_sound vs cs xs flags tol :
@@ -21,3 +21,82 @@ Theorem C01_potentials_feasible vs cs d :
   feasible vs cs (fun i => place_of d i / scl (vget vs i)).
 Proof. exact (detect_potentials_sound vs cs d). Qed.
 Print Assumptions C01_potentials_feasible.
+
+(* ---------------- the executable IncSolver model (Vpsc/VpscModel.v, tied to /repo by correspondence) *)
+
+(* on return of solve()/satisfy() every constraint that is neither active nor flagged holds to -1e-10 *)
+Theorem C01_sat_on_return fuel s o s' :
+  run_result o fuel s s' ->
+  wf_cons (svars s') (scons s') ->
+  forall k, (k < length (scons s'))%nat -> act_of s' k = false -> uns_of s' k = false ->
+    ZERO_UPPERBOUND <= slackv (svars s') (place_of (final_positions s')) (con_of s' k).
+Proof. exact (sat_on_return fuel s o s'). Qed.
+Print Assumptions C01_sat_on_return.
+
+(* active constraints are tight under the invariant act_inv *)
+Theorem C01_active_tight s c :
+  act_inv s -> act_of s c = true ->
+  ~ scl (var_of s (cl (con_of s c))) == 0 -> ~ scl (var_of s (cr (con_of s c))) == 0 ->
+  slack_val s c == 0.
+Proof. exact (active_tight s c). Qed.
+Print Assumptions C01_active_tight.
+
+(* partial: the full "every unflagged constraint holds, active ones and hence all merged equalities exactly" needs
+   act_inv of the returned state, which is proved for every step except split (C01_split_act_inv_partial) *)
+Theorem C01_sat_on_return_full_partial fuel s o s' :
+  run_result o fuel s s' ->
+  wf_cons (svars s') (scons s') -> wf_vars (svars s') ->
+  act_inv s' ->
+  forall k, (k < length (scons s'))%nat -> uns_of s' k = false ->
+    let sl := slackv (svars s') (place_of (final_positions s')) (con_of s' k) in
+    ZERO_UPPERBOUND <= sl /\ (act_of s' k = true -> sl == 0).
+Proof. exact (sat_on_return_full fuel s o s'). Qed.
+Print Assumptions C01_sat_on_return_full_partial.
+
+Theorem C01_wf_init vs cs : wf_cons vs cs -> book (init vs cs) /\ act_inv (init vs cs).
+Proof. exact (init_book vs cs). Qed.
+Print Assumptions C01_wf_init.
+
+Theorem C01_merge_preserves s c :
+  book s -> act_inv s -> (c < length (scons s))%nat ->
+  blk_of s (cl (con_of s c)) <> blk_of s (cr (con_of s c)) ->
+  book (fst (merge s c)) /\ act_inv (fst (merge s c)).
+Proof. exact (merge_preserves s c). Qed.
+Print Assumptions C01_merge_preserves.
+
+Theorem C01_most_violated_preserves s :
+  book s -> act_inv s -> book (snd (most_violated s)) /\ act_inv (snd (most_violated s)).
+Proof. exact (most_violated_preserves s). Qed.
+Print Assumptions C01_most_violated_preserves.
+
+Theorem C01_add_constraint_preserves s k :
+  book s -> act_inv s -> (cl k < length (svars s))%nat -> (cr k < length (svars s))%nat ->
+  book (add_constraint s k) /\ act_inv (add_constraint s k).
+Proof. exact (add_constraint_preserves s k). Qed.
+Print Assumptions C01_add_constraint_preserves.
+
+Theorem C01_set_desired_preserves s i d :
+  book s -> act_inv s -> book (set_desired s i d) /\ act_inv (set_desired s i d).
+Proof. exact (set_desired_preserves s i d). Qed.
+Print Assumptions C01_set_desired_preserves.
+
+Theorem C01_move_blocks_preserves s : book s -> act_inv s -> book (move_blocks s) /\ act_inv (move_blocks s).
+Proof. exact (move_blocks_preserves s). Qed.
+Print Assumptions C01_move_blocks_preserves.
+
+Theorem C01_split_preserves_tightness s this c s' l r :
+  act_inv s -> split s this c = Ok (s', l, r) ->
+  forall c', act_of s' c' = true -> tight_off s' c'.
+Proof. exact (split_preserves_tightness s this c s' l r). Qed.
+Print Assumptions C01_split_preserves_tightness.
+
+Theorem C01_split_act_inv_partial s this c s' l r :
+  act_inv s -> split s this c = Ok (s', l, r) ->
+  (forall c', act_of s' c' = true -> blk_of s' (cl (con_of s' c')) = blk_of s' (cr (con_of s' c'))) ->
+  act_inv s'.
+Proof. exact (split_act_inv_partial s this c s' l r). Qed.
+Print Assumptions C01_split_act_inv_partial.
+
+Theorem C01_no_final_throw_partial s : inactive_sat s -> final_scan s = Ok s.
+Proof. exact (final_scan_no_throw_partial s). Qed.
+Print Assumptions C01_no_final_throw_partial.
